@@ -4,7 +4,8 @@
      <id>.<cut> C <cut> <x|-> <k> {<off>:<class>:<val>}       scan the first <cut> bytes; the outcome of the
                                                               real object parser at the k located candidates;
                                                               x = also print the rebuilt xref table
-   Output: <id>.<cut> <observation>   (faithful model: scanner.Find with its buffer windows)
+   Output: <id>.<cut> <observation>   (faithful model: scanner.Find with its buffer windows,
+           run as scan_windows_fast, proved equal to scan_windows)
    Side file ideal.txt: the cases on which the search without windows gives a different result. *)
 open Wire
 open SeqScan
@@ -104,9 +105,12 @@ let () =
       let pc (off : Datatypes.nat) : string pres =
         match Hashtbl.find_opt table (int_of_nat off) with Some r -> r | None -> POk "unlocated-by-impl" in
       let with_xref = (x = "x") in
-      let w = result (scan_windows data) pc with_xref px pt in
+      (* scan_windows_fast = scan_windows (Prop_C20.scan_windows_fast_is_scan_windows) *)
+      let ms_w = FastScan.scan_windows_fast data in
+      let w = result ms_w pc with_xref px pt in
       Printf.printf "%s %s\n" id w;
-      let i = result (scan_ideal data) pc with_xref px pt in
+      let ms_i = scan_ideal data in
+      let i = if ms_i = ms_w then w else result ms_i pc with_xref px pt in
       if i <> w then begin
         incr ideal_diff;
         if !ideal_diff <= 50 then Printf.fprintf (Lazy.force ideal_out) "%s\n  windows: %s\n  ideal  : %s\n" id w i
